@@ -1,0 +1,20 @@
+//go:build verif
+
+package storage
+
+import (
+	"github.com/nspcc-dev/bbolt"
+	"github.com/syndtr/goleveldb/leveldb"
+)
+
+// Test seams for the /verif machinery (property C02): the handles of the
+// persistent backends, so that an external harness can observe every durable
+// state a PutChangeSet goes through (bbolt: transaction ids, read-only
+// transactions, file copies; goleveldb: the write lock via OpenTransaction,
+// snapshots). They do not change the stores.
+
+// VerifDB returns the underlying bbolt database.
+func (s *BoltDBStore) VerifDB() *bbolt.DB { return s.db }
+
+// VerifDB returns the underlying goleveldb database.
+func (s *LevelDBStore) VerifDB() *leveldb.DB { return s.db }
